@@ -80,3 +80,14 @@ Proof.
     [ unfold LevelNames.unmarshal_text; rewrite gen_parse_level; destruct (Level.parse_level g s); reflexivity
     | unfold LevelNames.unmarshal_text, unmarshal_text_ref; destruct (Level.parse_level _ s) eqn:E; reflexivity ].
 Qed.
+
+(* Level.MarshalText: the registered name, or an error for a level without one *)
+Lemma gen_marshal_text : forall g l,
+  LevelNames.marshal_text (r_l2s g) l =
+  match Level.marshal_text g l with Some s => (s, None) | None => ([], Some tt) end.
+Proof.
+  intros g l.
+  first [ reflexivity
+        | unfold LevelNames.marshal_text, marshal_text_ref, Level.marshal_text;
+          destruct (lookupZ (r_l2s g) l); reflexivity ].
+Qed.
